@@ -217,7 +217,7 @@ def _edge_chi2(ek):
     return fn
 
 
-def _graph_sum(eks):
+def _graph_sum(eks, fixed=False):
     def fn(P, g):
         edges, verts = [], []
         for i, ek in enumerate(eks):
@@ -227,6 +227,8 @@ def _graph_sum(eks):
             e.vertices = None
             edges.append(e)
             verts += [v1, v2]
+        for v in verts:
+            v.fixed = fixed  # chi^2 is the sum over ALL edges, whether or not their vertices are fixed
         gr = g.Graph(edges, verts)
         total = 0.0
         for e in edges:
@@ -279,5 +281,7 @@ def cases(tier):
     for c in combos:
         eks = [EDGE_KINDS[i] for i in c]
         out.append(Case("graphsum-" + "+".join("%s.%s" % ek for ek in eks), _graph_sum(eks), timeout=10, validate=1))
+        if len(eks) <= 2:
+            out.append(Case("graphsum-allfixed-" + "+".join("%s.%s" % ek for ek in eks), _graph_sum(eks, True), timeout=10, validate=1))
     out.append(Case("fold-step", _fold_step, timeout=10, validate=v))
     return out
